@@ -2,6 +2,7 @@
 C06 — saving is deterministic and idempotent.
 -/
 import ElfioVerif.Lemmas.Save
+import ElfioVerif.Props.C03
 namespace ElfioVerif.C06
 open Gen
 
@@ -78,5 +79,76 @@ theorem save_twice_witness :
         simp only [byteAt] at b1 b2
         refine ⟨o, r1, r2, rfl, h1, o1.1, h2, o2.1, ?_⟩
         intro e; rw [e, b2] at b1; cases b1
+
+/-! ### saving twice: objects without segments -/
+
+open C03 in
+/-- the header preparation of `save` is idempotent: run on the header a previous save left, it
+    reproduces the header that save started its layout from -/
+theorem saveHdr0_idem (o : Obj) (hd : Bytes) (x : Nat) (hl : ehdrSize o.cls ≤ hd.length) :
+    saveHdr0 o (Hdr.set_shoff o.cls o.enc (saveHdr0 o hd) x) = saveHdr0 o hd := by
+  unfold saveHdr0
+  simp only
+  generalize o.cls = c at *
+  generalize o.enc = e at *
+  generalize o.segs.length % 65536 = m
+  generalize o.secs.length % 65536 = n
+  have r1 : ∀ h v, Hdr.set_phnum c e h v = HField.phnum.set c e h v := fun _ _ => rfl
+  have r2 : ∀ h v, Hdr.set_phoff c e h v = HField.phoff.set c e h v := fun _ _ => rfl
+  have r3 : ∀ h v, Hdr.set_shnum c e h v = HField.shnum.set c e h v := fun _ _ => rfl
+  have r4 : ∀ h v, Hdr.set_shoff c e h v = HField.shoff.set c e h v := fun _ _ => rfl
+  simp only [r1, r2, r3, r4]
+  -- first run
+  have la1 : ehdrSize c ≤ (HField.phnum.set c e hd m).length := by rw [hdr_set_length _ _ _ _ _ hl]; exact hl
+  generalize hp : (if m > 0 then (Hdr.e_ehsize c e (HField.phnum.set c e hd m)).toNat else 0) = p
+  have lb1 : ehdrSize c ≤ (HField.phoff.set c e (HField.phnum.set c e hd m) p).length := by
+    rw [hdr_set_length _ _ _ _ _ la1]; exact la1
+  have lc1 : ehdrSize c ≤ (HField.shnum.set c e (HField.phoff.set c e (HField.phnum.set c e hd m) p) n).length := by
+    rw [hdr_set_length _ _ _ _ _ lb1]; exact lb1
+  have lh0 : ehdrSize c ≤ (HField.shoff.set c e
+      (HField.shnum.set c e (HField.phoff.set c e (HField.phnum.set c e hd m) p) n) 0).length := by
+    rw [hdr_set_length _ _ _ _ _ lc1]; exact lc1
+  generalize ha1 : HField.phnum.set c e hd m = a1 at *
+  generalize hb1 : HField.phoff.set c e a1 p = b1 at *
+  generalize hc1 : HField.shnum.set c e b1 n = c1 at *
+  generalize hh0 : HField.shoff.set c e c1 0 = h0 at *
+  have lhT : ehdrSize c ≤ (HField.shoff.set c e h0 x).length := by rw [hdr_set_length _ _ _ _ _ lh0]; exact lh0
+  generalize hhT : HField.shoff.set c e h0 x = hT at *
+  have ne : ∀ {f g : HField}, f ≠ g → f.name ≠ g.name := fun hfg e => hfg (hfield_name_inj e)
+  -- e_phnum of hT is still m
+  have sA : slice hT (Spec.field (Spec.ehdrL c) HField.phnum.name).1 (Spec.field (Spec.ehdrL c) HField.phnum.name).2 =
+      encodeInt e (Spec.field (Spec.ehdrL c) HField.phnum.name).2 m := by
+    rw [← hhT, set_slice_other .shoff c e h0 x lh0 _ (hfield_valid .phnum c) (ne (by decide)),
+      ← hh0, set_slice_other .shoff c e c1 0 lc1 _ (hfield_valid .phnum c) (ne (by decide)),
+      ← hc1, set_slice_other .shnum c e b1 n lb1 _ (hfield_valid .phnum c) (ne (by decide)),
+      ← hb1, set_slice_other .phoff c e a1 p la1 _ (hfield_valid .phnum c) (ne (by decide)),
+      ← ha1, set_slice_same .phnum c e hd m hl]
+  have eA : HField.phnum.set c e hT m = hT := set_absorb .phnum c e hT m lhT sA
+  rw [eA]
+  -- e_ehsize is untouched by the layout setters, so the program header offset is the same
+  have hsz : Hdr.e_ehsize c e hT = Hdr.e_ehsize c e a1 := by
+    rw [← hhT, (hdr_set_frame .shoff c e h0 x lh0).2.2.2.2.2.2.2.1 (by decide),
+      ← hh0, (hdr_set_frame .shoff c e c1 0 lc1).2.2.2.2.2.2.2.1 (by decide),
+      ← hc1, (hdr_set_frame .shnum c e b1 n lb1).2.2.2.2.2.2.2.1 (by decide),
+      ← hb1, (hdr_set_frame .phoff c e a1 p la1).2.2.2.2.2.2.2.1 (by decide)]
+  have hp2 : (if m > 0 then (Hdr.e_ehsize c e hT).toNat else 0) = p := by
+    rw [hsz, ← hp]
+  rw [hp2]
+  have sB : slice hT (Spec.field (Spec.ehdrL c) HField.phoff.name).1 (Spec.field (Spec.ehdrL c) HField.phoff.name).2 =
+      encodeInt e (Spec.field (Spec.ehdrL c) HField.phoff.name).2 p := by
+    rw [← hhT, set_slice_other .shoff c e h0 x lh0 _ (hfield_valid .phoff c) (ne (by decide)),
+      ← hh0, set_slice_other .shoff c e c1 0 lc1 _ (hfield_valid .phoff c) (ne (by decide)),
+      ← hc1, set_slice_other .shnum c e b1 n lb1 _ (hfield_valid .phoff c) (ne (by decide)),
+      ← hb1, set_slice_same .phoff c e a1 p la1]
+  have eB : HField.phoff.set c e hT p = hT := set_absorb .phoff c e hT p lhT sB
+  rw [eB]
+  have sC : slice hT (Spec.field (Spec.ehdrL c) HField.shnum.name).1 (Spec.field (Spec.ehdrL c) HField.shnum.name).2 =
+      encodeInt e (Spec.field (Spec.ehdrL c) HField.shnum.name).2 n := by
+    rw [← hhT, set_slice_other .shoff c e h0 x lh0 _ (hfield_valid .shnum c) (ne (by decide)),
+      ← hh0, set_slice_other .shoff c e c1 0 lc1 _ (hfield_valid .shnum c) (ne (by decide)),
+      ← hc1, set_slice_same .shnum c e b1 n lb1]
+  have eC : HField.shnum.set c e hT n = hT := set_absorb .shnum c e hT n lhT sC
+  rw [eC, ← hhT]
+  rw [set_set .shoff c e h0 x 0 lh0, ← hh0, set_set .shoff c e c1 0 0 lc1]
 
 end ElfioVerif.C06
